@@ -62,7 +62,7 @@ class C06:
             st.integers(0, 255), lat, lat, st.lists(st.sampled_from([0.0, 1e-5, 1e-3]), min_size=1, max_size=2))
 
     def examples(self, tier):
-        return 60 if tier == "quick" else 3300
+        return 60 if tier == "quick" else 20000
 
     def enumerate(self, tier):
         out = []
